@@ -86,11 +86,11 @@ def parse_mir(text):
             # enum constructor shims appear twice with identical bodies; keep the first
             fns.setdefault(f.name, f)
         else:
-            m = re.match(r'^(?:const|static) (.+?): (.+?) = const (.+);$', l)
+            m = re.match(r'^(?:const|static) (.+): (.+?) = const (.+);$', l)
             if m:
                 consts[m.group(1)] = ('lit', m.group(3), m.group(2))
             else:
-                m = re.match(r'^(?:const|static) (.+?): (.+?) = \{$', l)
+                m = re.match(r'^(?:const|static) (.+): (.+?) = \{$', l)
                 if m:
                     f = Fn(); f.name = m.group(1); f.params = []; f.ret = m.group(2); f.locals = {'_0': m.group(2)}; f.blocks = {}; f.kind = 'const'
                     i = _parse_body(lines, i + 1, f)
